@@ -630,10 +630,10 @@ def run_case(case, res):
         case_schedule(case, res)
 
 
-BOUND2 = {'header-proofs': ('stall:J:read_headers',),
-          'warm-then-reorg': ('stall:J:read_headers',),
-          'tx-proofs': ('stall:J:fs_tx_hashes_at_blockheight', 'hold:J:fs_tx_hashes_at_blockheight'),
-          'tsc-in-flight': ('stall:J:fs_tx_hashes_at_blockheight',)}
+# slices of the second deviation level.  Only warm-then-reorg's is kept: a slice is heaviest at the
+# EARLY occurrences of its label (the read kept back from the start stays in every later menu),
+# and those of header-proofs / tx-proofs / tsc-in-flight were still running after 30 minutes
+BOUND2 = {'warm-then-reorg': ('stall:J:read_headers',)}
 
 
 def cases_for(tier):
@@ -653,7 +653,7 @@ def _cases_for(tier):
         # FIRST deviation keeps back a proof's own read
         for scn, firsts in BOUND2.items():
             for first in firsts:
-                n = 16 if scn == 'header-proofs' else 8
+                n = 16
                 for i in range(n):
                     cases.append(dict(scenario=scn, bound=2, first=first, shard=[i, n]))
     for depth in (1, 2) if q else (1, 2, 3):
@@ -693,8 +693,8 @@ def run(tier, seed, started):
         'torn_read_executions': c.get('torn_read_executions', 0),
         'slice_points_per_reorg': c.get('max:slice_points'),
         'deviation_bound_completed': 1 if tier == 'quick' else
-        '1 on all scenarios; of bound 2 the slices whose first deviation keeps back a proof\'s own '
-        'read (stall / hold of read_headers, fs_tx_hashes_at_blockheight) on ' + ', '.join(BOUND2),
+        '1 on all scenarios; of bound 2 the slice whose first deviation stalls a read_headers '
+        'job, on ' + ', '.join(BOUND2),
         'deviation_kinds_used': sorted(kinds),
         'exhaustive': True,
     }
